@@ -416,7 +416,16 @@ fn run_simple(cfg: &Cfg, out: &mut Out) {
                 let fresh = SimpleBackend::load(&store_path);
                 let read = guard(|| fresh.read_commit(&id).block_on());
                 let read_txt = match &read { Ok(Ok(b)) => show_commit(b, None), Ok(Err(e)) => classify_err(&format!("{e}")), Err(_) => "panic".into() };
-                out.case(&req, &format!("ok R {} B {}", show_commit(&returned, None), read_txt));
+                // the byte stream hashed for the id (recording digest), and id == BLAKE2b of it
+                struct Rec(Vec<u8>);
+                impl jj_lib::content_hash::DigestUpdate for Rec { fn update(&mut self, d: &[u8]) { self.0.extend_from_slice(d); } }
+                struct Raw<'a>(&'a [u8]);
+                impl jj_lib::content_hash::ContentHash for Raw<'_> { fn hash(&self, st: &mut impl jj_lib::content_hash::DigestUpdate) { st.update(self.0); } }
+                let mut rec = Rec(vec![]);
+                jj_lib::content_hash::ContentHash::hash(&returned, &mut rec);
+                out.case(&req, &format!("ok H {} R {} B {}", hex(&rec.0), show_commit(&returned, None), read_txt));
+                if jj_lib::content_hash::blake2b_hash(&Raw(&rec.0)).as_slice() == id.as_bytes() { out.oracle_ok(); }
+                else { fail(out, "simplebackend:id-not-hash-of-encoding", show_commit(&c, None)); }
                 out.tally("simple.result", "ok");
                 if !c.root_tree.is_resolved() || c.parents.len() > 1 || !c.predecessors.is_empty() { out.nontrivial(("s", show_commit(&c, None))); }
                 if documented_wf(&c) {
